@@ -69,6 +69,9 @@ class Ctx:
         if ok:
             self.discharged += n
 
+    def rule_ids(self):
+        return list(self.rule_instances)
+
     def sample(self, rule: str, construct: str, what: str, verdict: str = 'HOLDS', **extra):
         if len([s for s in self.samples if s['rule'] == rule]) < 3:
             d = {'rule': rule, 'construct': construct, 'obligation': what, 'verdict': verdict}
